@@ -1,2 +1,2 @@
 SPECIFICATION MonSpec
-INVARIANTS CurrentValid CurrentFresh GetOnlyValid IdsUnique CookieLifetime RRaw
+INVARIANTS CurrentValid CurrentFresh GetOnlyValid IdsUnique CookieLifetime CookieUsable RRaw
